@@ -457,10 +457,14 @@ def _put_one_constant(
                         )) +
                         f', got {value.__class__.__name__}')
 
-    if (value < 0 if isinstance(value, (int, float)) else value.imag < 0 if isinstance(value, complex) else False):
-        raise NodeError('Constant.value cannot be negative')
-
     src = repr(value)
+
+    if isinstance(value, (int, float, complex)):
+        if src.lstrip('(').startswith('-'):  # look at the repr() and not `value < 0` because of negative zero, `-0.0` and `-0j` are a UnaryOp in source as well
+            raise NodeError('Constant.value cannot be negative')
+
+        if src.startswith('('):  # '(1+2j)' is a BinOp in source
+            raise NodeError('Constant.value cannot be a complex number with a real part')
 
     if isinstance(value, (float, complex)):  # repr() of infinities is not their source, and nan has no source form at all
         if 'nan' in src:
